@@ -129,7 +129,15 @@ class Unsupported(Exception):
 def part_classes():
     from indi.message.base import IndiMessagePart
 
-    return sorted(IndiMessagePart._all_subclasses(), key=lambda c: (c.__module__, c.__name__))
+    # every class below IndiMessagePart, through Python's own `__subclasses__()` (what `from_xml` searches, whatever the
+    # library calls its private helper for it)
+    seen, todo = [], list(IndiMessagePart.__subclasses__())
+    while todo:
+        c = todo.pop()
+        if c not in seen:
+            seen.append(c)
+            todo.extend(c.__subclasses__())
+    return sorted(seen, key=lambda c: (c.__module__, c.__name__))
 
 
 def sample_part(cls, universe):
